@@ -6,6 +6,7 @@
 //        ef_replay factory <n> <gap> <use_csr> <s> <xi> <inner_radius> <file 0|1> <R_bend> <frev>
 // exit 0 agree, 1 mismatch, 3 usage
 #include <cstdio>
+#include <unistd.h>
 #include <cstdlib>
 #include <cmath>
 #include <vector>
@@ -95,7 +96,7 @@ int main(int argc, char** argv) {
             {"empty", "", 0}, {"only_newline", "\n", 0}, {"malformed", "abc def\n", 0}, {"two_lines", "0 1 2\n1 3 4\n", 2},
             {"no_trailing_newline", "0 1 2\n1 3 4", 2}, {"incomplete_last_line", "0 1 2\n1 3\n", 1}, {"repeated_harmonic", "0 1 2\n0 5 6\n1 3 4\n", 2}};
         for (auto& c : cases) {
-            std::string fn = std::string("/tmp/vf_zfile_") + c.name + ".dat";
+            std::string fn = std::string("/tmp/vf_zfile_") + std::to_string((long)getpid()) + "_" + c.name + ".dat";
             FILE* f = fopen(fn.c_str(), "w"); fputs(c.text, f); fclose(f);
             Impedance z(fn, 1e12);
             if (z.size() != c.want) { printf("MISMATCH impedance file '%s': %zu samples read, %zu complete lines in the file\n", c.name, z.size(), c.want); bad++; }
@@ -109,7 +110,7 @@ int main(int argc, char** argv) {
         size_t n = atoi(argv[2]); double gap = atof(argv[3]); bool csr = atoi(argv[4]); double s = atof(argv[5]), xi = atof(argv[6]), inner = atof(argv[7]);
         bool file = atoi(argv[8]); double R = atof(argv[9]), frev = atof(argv[10]); const double fmax = 1e12, c = 299792458.0;
         std::string fname = "";
-        if (file) { fname = "/tmp/vf_factory_replay.dat"; FILE* f = fopen(fname.c_str(), "w"); for (int i = 0; i < 5; i++) fprintf(f, "%d %g %g\n", i, 10.0 + i, -1.0 * i); fclose(f); }
+        if (file) { fname = "/tmp/vf_factory_replay_" + std::to_string((long)getpid()) + ".dat"; FILE* f = fopen(fname.c_str(), "w"); for (int i = 0; i < 5; i++) fprintf(f, "%d %g %g\n", i, 10.0 + i, -1.0 * i); fclose(f); }
         auto got = makeImpedance(n, nullptr, fmax, R, frev, gap, csr, s, xi, inner, fname);
         std::vector<cd> want(n, 0.0); bool any = false;
         auto add = [&](const Impedance& z) { any = true; for (size_t i = 0; i < n && i < z.size(); i++) want[i] += cd(z[i].real(), z[i].imag()); };
@@ -127,6 +128,7 @@ int main(int argc, char** argv) {
             double scale = 0; for (size_t i = 0; i < n; i++) scale = std::max(scale, std::abs(want[i]));
             for (size_t i = 0; i < n && i < got->size(); i++) { impedance_t v = (*got)[i];
                 cmp("factory.re", 0, (int)i, v.real(), want[i].real(), 1e-5, scale + 1e-30); cmp("factory.im", 0, (int)i, v.imag(), want[i].imag(), 1e-5, scale + 1e-30); } }
+        if (file) remove(fname.c_str());
         printf("factory: %d mismatches (n=%zu gap=%g csr=%d s=%g xi=%g inner=%g file=%d R=%g frev=%g)\n", bad, n, gap, (int)csr, s, xi, inner, (int)file, R, frev);
         return bad ? 1 : 0;
     }
